@@ -238,9 +238,10 @@ def family_realdata(tier, seed):
         for k in range(6):
             plans += [(["win6"], dict(p_action=0.3)), (["place6"], dict(p_action=0.3)), (["win6", "place6"], dict(p_action=0.2, event_processing=bool(k % 2))),
                       (["basic14"], dict(p_action=0.1 + 0.05 * (k % 3), max_orders=24))]
-        plans += [(["mo2"], dict(p_action=0.004, max_orders=24)), (["self"], dict(p_action=0.004, max_orders=24)),
-                  (["mo2"], dict(p_action=0.01, max_orders=30, listener_kwargs={"inplay": True})),
-                  (["self"], dict(p_action=0.01, max_orders=30, listener_kwargs={"seconds_to_start": 600}))]
+        # the two long recordings: the first 2 500 lines each (a trace of ~15 000 steps), with and without listener filters
+        plans += [(["mo2"], dict(p_action=0.02, max_orders=24, max_lines=2500)), (["self"], dict(p_action=0.02, max_orders=24, max_lines=2500)),
+                  (["mo2"], dict(p_action=0.03, max_orders=30, max_lines=4000, listener_kwargs={"inplay": False})),
+                  (["self"], dict(p_action=0.03, max_orders=30, max_lines=4000, listener_kwargs={"seconds_to_start": 600}))]
     for i, (keys, kw) in enumerate(plans):
         scn = realdata.scenario(keys, "real%d" % i, seed * 101 + i, **kw)
         if scn["markets"]:
@@ -329,6 +330,21 @@ def family_place_grid(tier, seed):
             m = dict({"id": "1.100000001", "event_id": "30000001", "market_type": "WIN", "winners": 1, "bsp": False, "persistence": True, "runners": [11, 12], "updates": ups}, **mdef)
             out.append({"id": "pg%s%d" % (tag, k), "cfg": {"bpe": bpe}, "markets": [m],
                         "strategies": [{"name": "A", "max_live_trade_count": 1000, "max_trade_count": 100000, "script": {"1.100000001|0|book": acts}}]})
+    # the 0.0 line of a handicap market, listed after another line of the same selection: an order on it meets its own
+    # line's book, not the first-listed line's
+    for bpe in (True, False):
+        k += 1
+        runners = ["201@-0.5", 201, "201@0.5", 202]
+        books = {"201@-0.5": _bk([[3.0, 8.0]], [[3.2, 8.0]], []), "201": _bk([[2.0, 2.0], [1.9, 5.0]], [[2.1, 3.0]], []),
+                 "201@0.5": _bk([[1.5, 9.0]], [[1.6, 9.0]], []), "202": _bk([[4.0, 5.0]], [[4.4, 5.0]], [])}
+        ups = [{"pt": 1000 * j, "status": "OPEN", "version": 1, "rstat": {str(r): ["ACTIVE", None, None] for r in runners}, "books": books} for j in range(3)]
+        acts = []
+        for i, (side, price, size) in enumerate([("BACK", 2.0, 6.0), ("BACK", 1.9, 6.0), ("BACK", 2.5, 4.0), ("LAY", 2.1, 6.0), ("LAY", 2.0, 3.0), ("LAY", 3.0, 6.0), ("BACK", 1.5, 10.0)]):
+            acts.append({"op": "place", "o": "z%d" % i, "t": "tz%d" % i, "sel": 201, "hc": 0, "side": side, "price": price, "size": size, "pers": "PERSIST"})
+        m = {"id": "1.100000001", "event_id": "30000001", "market_type": "ASIAN_HANDICAP", "betting_type": "ASIAN_HANDICAP_DOUBLE_LINE", "winners": 1, "bsp": False,
+             "persistence": True, "runners": runners, "updates": ups}
+        out.append({"id": "pgh%d" % k, "cfg": {"bpe": bpe}, "markets": [m],
+                    "strategies": [{"name": "A", "max_live_trade_count": 1000, "max_trade_count": 100000, "script": {"1.100000001|0|book": acts}}]})
     return out
 
 
